@@ -315,10 +315,19 @@ def rule_contains(ctx):
         if f is None:
             ctx.missing(R, nm)
             continue
-        le = let_env(f["body"])
-        ctx.check(R, nm + "/matcher", "matcher" in le and render(le["matcher"]).replace(" ", "").endswith(pred), render(le.get("matcher"))[:100] if "matcher" in le else "?", site(SST, f))
-        t = render(f["body"]).replace(" ", "")
-        ctx.check(R, nm + "/reports-each-occurrence", "reports.push(error.into_report())" in t and t.count("self.contains_expr(&matcher,") == 2, "", site(SST, f))
+        import sgrep
+        envl = sgrep.lets(f["body"])
+        pred_m = pred.split(".")[-1].replace("()", "")
+        # the matcher given to contains_expr is a closure `|e| e.<pred>()`
+        ms_ = [b for _n, b in sgrep.find(f["body"], "self.contains_expr(__m, __cb)", envl)]
+        okm = bool(ms_)
+        for _n, b in sgrep.find(f["body"], "self.contains_expr(__m, __cb)"):
+            m_expr = b["__m"].lstrip("&")
+            init = envl.get(m_expr)
+            okm = okm and init is not None and sgrep.has(init, "|__e| __e.%s()" % pred_m)
+        ctx.check(R, nm + "/matcher", okm, "every contains_expr call must be given the closure `|e| e.%s()`" % pred_m, site(SST, f))
+        pushes = [p for p in method_calls(f["body"], "push") if "into_report" in render(p["args"][0])]
+        ctx.check(R, nm + "/reports-each-occurrence", len(pushes) >= 1 and len(ms_) == 2, "with a report collection every occurrence is reported through the callback (%d push, %d traversals)" % (len(pushes), len(ms_)), site(SST, f))
 
 
 def rule_binding(ctx):
